@@ -150,7 +150,7 @@ static void server_cb(int which, void *rpc, struct msg *request, struct kill *re
 	} else if (!R->corrupting) V("C43.handler-for-unknown-request", "the handler ran for a request (from '%s') that no call made", esc(c.from).c_str());
 	EVTAG_ASSIGN(reply, weapon, reply_weapon(c.from).c_str());
 	EVTAG_ASSIGN(reply, action, reply_action(c.to).c_str());
-	for (size_t i = 0; i < c.to.size() % 4; i++) EVTAG_ARRAY_ADD_VALUE(reply, how_often, (ev_uint32_t)(c.from.size() * 1000 + i));
+	for (size_t i = 0; i < c.to.size() % 4; i++) EVTAG_ARRAY_ADD_VALUE(reply, how_often, (ev_uint32_t)mix64(c.from.size() * 1000 + i));
 	if (which == 0) { APIV(glue_request_done(0, rpc)); }
 	else { R->saved.push_back({which, rpc, id}); probe("reply-withheld"); }
 }
@@ -305,9 +305,9 @@ static void exec_op(const Op &op) {
 		int64_t p = op.a[1];
 		q.c.from = "c" + std::to_string(id) + "|" + std::string((size_t)(p % 7 == 0 ? p % 3000 : p % 20), 'n');
 		q.c.to = std::string((size_t)(p % 11), 't') + std::to_string(p % 1000);
-		if (p % 3 == 0) { q.c.has_attack = true; q.c.weapon = "sword" + std::to_string(p % 100); for (int i = 0; i < (int)(p % 4); i++) q.c.often.push_back((uint32_t)(p * 31 + i)); }
+		if (p % 3 == 0) { q.c.has_attack = true; q.c.weapon = "sword" + std::to_string(p % 100); for (int i = 0; i < (int)(p % 4); i++) q.c.often.push_back(i == 0 && p % 2 ? 0xffffffffu : (uint32_t)mix64((uint64_t)p + i)); }	// full-width values: every nibble count of the tagged encoding
 		q.c.nrun = (int)(p % 5 == 0 ? p % 4 : 0);
-		if (q.c.nrun) { q.c.run_how = "fast" + std::to_string(p % 50); if (p % 2) { q.c.has_large = true; q.c.large = (uint64_t)p * 0x100000001ULL; } }
+		if (q.c.nrun) { q.c.run_how = "fast" + std::to_string(p % 50); if (p % 2) { q.c.has_large = true; q.c.large = p % 3 == 0 ? ~0ULL : mix64((uint64_t)p); } }
 		q.m = msg_new();
 		q.k = kill_new();
 		fill_msg(q.m, q.c);
@@ -442,7 +442,7 @@ static void execute(const Plan &p) {
 				if (run.corrupting) continue;
 				if (!q.handler_runs) { V("C43.reply-without-handler", "call %zu completed successfully although the server handler never ran for it", i); break; }
 				std::vector<uint32_t> often;
-				for (size_t j = 0; j < q.c.to.size() % 4; j++) often.push_back((uint32_t)(q.c.from.size() * 1000 + j));
+				for (size_t j = 0; j < q.c.to.size() % 4; j++) often.push_back((uint32_t)mix64(q.c.from.size() * 1000 + j));
 				if (!q.reply_read || q.r_weapon != reply_weapon(q.c.from) || q.r_action != reply_action(q.c.to) || q.r_often != often) {
 					V("C43.reply-differs", "call %zu: the reply handed to the callback (weapon '%s', action '%s', %zu numbers) is not the one the handler produced (weapon '%s', action '%s', %zu numbers)", i, esc(q.r_weapon).c_str(), esc(q.r_action).c_str(), q.r_often.size(), esc(reply_weapon(q.c.from)).c_str(), esc(reply_action(q.c.to)).c_str(), often.size());
 					break;
